@@ -176,8 +176,16 @@ def model_reduction(
             else:
                 return key
 
-        elim = np.atleast_1d(_expand_key(elim))
-        keep = np.atleast_1d(_expand_key(keep))
+        def _resolve(key):
+            # Resolve offsets the way NumPy indexing does (negative offsets
+            # count from the end, out of range raises) and drop duplicates
+            idx = np.atleast_1d(_expand_key(key))
+            if idx.size > 0:
+                idx = np.unique(np.arange(len(labels))[idx])
+            return idx
+
+        elim = _resolve(elim)
+        keep = _resolve(keep)
 
         if len(elim) > 0 and len(keep) > 0:
             raise ValueError(
